@@ -677,11 +677,6 @@ def sig_decode(c):
     return f"{k}:decode"
 
 
-def trimmed(c, exp):
-    """what a file can hold of the uncompressed array of a ragged case: (shape, flat)"""
-    return None
-
-
 def oracle_array(chk, c, r, exp):
     """valid array case: everything the user sees must be that of the uncompressed array"""
     dt = c["dtype"]
@@ -1002,7 +997,7 @@ def nontrivial(c):
 def generate(chk):
     rng = chk.rng
     thorough = chk.tier == "thorough"
-    scale = 5 if thorough else 1
+    scale = 10 if thorough else 2
     cases = [dict(c) for c in CORPUS]
     plan = [(gen_contig, 420), (gen_indexed, 520), (gen_ic, 560), (gen_gathered, 520)]
     for gen, n in plan:
@@ -1021,7 +1016,7 @@ def generate(chk):
         cases.append(gen_compress3(rng, inconsistent=True))
     # file level: a share of the valid cases is also written and inspected
     nfiles = 0
-    budget = 900 if thorough else 190
+    budget = 1500 if thorough else 300
     order = list(range(len(CORPUS), len(cases)))
     rng.shuffle(order)
     for i in order:
@@ -1029,8 +1024,6 @@ def generate(chk):
         if nfiles >= budget:
             break
         if not is_valid(c) or dkind(c["dtype"]) == "s":
-            continue
-        if c["k"] != "compress" and c["dtype"] in ("u1", "u2", "u4", "i8") and False:
             continue
         c["write"] = True
         nfiles += 1
